@@ -47,7 +47,8 @@ CHECKS: dict[str, tuple[str, str, str, str]] = {
         "effect-order tabulation + constant agreement + automata equivalence of (converter summary ∘ extracted transducer) vs DEP5 language",
         "Decides the command's effect table (refusal before any effect; REUSE.toml written before dep5 is unlinked on"
         " every path), agreement of the converter's constants with the reader's (precedence = AGGREGATE, TOML keys,"
-        " version, line splitting, paragraph order), and - for every legal dep5 glob over {a / * ? \\} up to length"
+        " version, line splitting, paragraph order - including a lint that nothing sorts, reverses, slices or re-assigns the"
+        " table list between its construction and the dump, since both formats let the last match win), and - for every legal dep5 glob over {a / * ? \\} up to length"
         " 5 (quick) / 7 (thorough) and paths of any length - equality of the DEP5 glob language with the language"
         " of the converted glob under the extracted REUSE.toml matcher. Equality of whole lint reports is not decided.",
         "Trusted: ast, re._parser, stdlib re applied to the two folded converter constants, DEP5's documented glob"
@@ -92,7 +93,8 @@ CHECKS: dict[str, tuple[str, str, str, str]] = {
         " pattern must report exactly that prefix, year and holder (constants evaluated against constants with the"
         " standard library's re; no repository code runs); the year group's language equals YYYY | YYYY ?- ?YYYY"
         " (DFA equivalence); make_copyright_line's decision table and get_year's table equal the specified ones on"
-        " every path; the merge loop produces one notice per parsed statement with min..max over the whole group."
+        " every path; the parse loop stores every line that matches a pattern exactly once for merging and stores nothing"
+        " else; the merge loop produces one notice per parsed statement with min..max over the whole group."
         " Arbitrary holder strings and year arithmetic on arbitrary sets are not decided.",
         "Trusted: ast, stdlib re on folded constants, sa/fold.py, sa/tab.py, sa/relang.py.",
         "DESIGN.md §3 C20",
@@ -137,8 +139,9 @@ CHECKS: dict[str, tuple[str, str, str, str]] = {
         " the exists() refusal, that the network fetch completes before the file is opened (a failed transfer leaves"
         " nothing), that the LicenseRef branch reaches no network call and that download_license is the only network"
         " caller; and for the command: usage errors first, '+' stripped before use, --all = report.missing_licenses,"
-        " every failure handler sets a non-zero code and stays in the loop, exit with the accumulated code, default"
-        " destination LICENSES/<id>.txt. Other network faults are not modelled.",
+        " every failure handler sets a non-zero code and stays in the loop, exit with the accumulated code; and the"
+        " default destination as a decision table: <root>/LICENSES/<id>.txt unless the root itself is a LICENSES directory"
+        " without VCS (an outcome that depends on any other condition is a violation). Other network faults are not modelled.",
         "Trusted: ast, sa/tab.py, syntactic table of Path/shutil mutators.",
         "DESIGN.md §3 C19",
     ),
@@ -192,7 +195,8 @@ CHECKS: dict[str, tuple[str, str, str, str]] = {
         " is a subset of the documented set: none for lint / lint-file / supported-licenses / --help / --version, the"
         " click.File bound to --output for spdx, the one open(path,'w') for annotate, write_text+unlink for"
         " convert-dep5, the four effects on `destination` for download; every spawned process is a literal read-only"
-        " VCS query; the written paths derive from the named files / covered children / their .license siblings. This"
+        " VCS query; an effect inside a helper whose target is the helper's own parameter is lifted through every call"
+        " site; download's refusal of an existing destination dominates every write (table shared with C19); the written paths derive from the named files / covered children / their .license siblings. This"
         " decides 'which code can touch the tree' for all inputs; OS-level metadata effects and the explicitly named"
         " symlink case are not decided.",
         "Trusted: ast, mypy's resolution, table T1, the read-only VCS query whitelist. Unresolved calls are listed in the evidence (floor 25).",
@@ -221,13 +225,16 @@ CHECKS: dict[str, tuple[str, str, str, str]] = {
         "DESIGN.md §3 C10",
     ),
     "C14": (
-        "order-taint analysis (sources by mypy type, propagation with function summaries, sinks) + constant-folder order hazards",
+        "order-taint analysis (sources by mypy type, propagation with function summaries, sinks) + freshness / shared-state mutation analysis over the per-file task + constant-folder order hazards",
         "Decides that on every function reachable from lint, lint-file, spdx and the pool worker no value whose order"
         " comes from a set, os.walk/glob or an unordered pool reaches a content-affecting sink (regex construction,"
         " first element, first-match loop, most_common, rendered text) without sorted / sort / simplify; that no"
         " module-level constant on the lint path consumes a set in iteration order; that the pool uses the"
         " order-preserving map over the same file list and workers re-create the same state; that nested REUSE.toml"
-        " files are ordered by depth. Listing order of output is deliberately not a sink. Independence of cwd and of"
+        " files are ordered by depth; and that every in-place mutation reachable from the per-file task"
+        " (_MultiprocessingContainer.__call__) is applied to an object the task created itself (freshness analysis with"
+        " return summaries; two named exceptions for the lazy dep5 memo), so no state is carried from one file to the"
+        " next. Listing order of output is deliberately not a sink. Independence of cwd and of"
         " the spelling of --root depends on run-time path arithmetic and is not decided.",
         "Trusted: ast, mypy types/callees, table T3 (sorted, list.sort, boolean.py simplify sorts operands).",
         "DESIGN.md §3 C14",
